@@ -31,9 +31,10 @@ CLAIMED.update({
         ref="DESIGN.md section 4 C08, section 3 E5/E10",
     ),
     "C16": dict(
-        technique="AST dataflow/index-agreement check of the solenoidal projector in summate_incompr and of IncomprRandMeth.__call__",
+        technique="AST dataflow/index-agreement check of the solenoidal projector in summate_incompr and of IncomprRandMeth.__call__; coordinate-frame rule for the vector components",
         text="Shows the projector is e1[d] - k[d,j]k[a,j]/|k_j|^2 with |k_j|^2 taken from the same mode column and `a` equal to the axis carrying the mean velocity in both the "
-        "kernel and the generator, which makes k.p(k)=0 an identity of the code shape; dim restricted to {2,3}. Does not decide divergence values or the variance split.",
+        "kernel and the generator, which makes k.p(k)=0 an identity of the code shape; dim restricted to {2,3}; the vector components must be returned in the user's frame "
+        "when positions were rotated into the model frame (one recorded known finding: rotated isotropic models). Does not decide divergence values or the variance split.",
         ref="DESIGN.md section 4 C16",
     ),
 })
